@@ -449,6 +449,7 @@ func runC10(c *Ctx, r *Report) {
 	l := c.L
 	defer func() {
 		c10r5(c, r)
+		c08r15(c, r) // a change-nth request is not lost to a request that follows it
 		if c.thorough() {
 			c08r3(c, r) // change-nth invalidates everything that was computed under the old field selection
 		}
